@@ -5,7 +5,8 @@ rational) is judged by the extracted Coq oracle ok_exact / ok_close, which evalu
 cell-counting specification hv_spec (Property.v: C12_fast_is_spec, C12_spec_is_cell_count).  Every case is handed to the
 model as integers on one power-of-two scale s; the true volume is hv / s^d (C12_scale: independent of s).
 The metamorphic clauses (monotone, permutation/duplication, boundary zero) are decided on the IMPLEMENTATION's outputs
-by ok_le / ok_eq.  "Caller's array unchanged" is an observation (bytes of the array before/after the call).
+by ok_le / ok_eq.  Several calls: the sequence stream (same arrays edited between calls) and the recorder stream, whose
+expected values come from the Coq recorder model (ModelRecorder.v: negation, worst point as reference, failures skipped).  "Caller's array unchanged" is an observation (bytes of the array before/after the call).
 """
 import itertools
 import math
@@ -49,17 +50,24 @@ TRUSTED = [
 ASSUMPTIONS = [
     "the property quantifies over reference points weakly dominated by every point (p <= ref componentwise; equality = on the "
     "boundary); the code documents garbage for other inputs, the generators never produce them (ok_case guards every case)",
-    "pointset of shape (n, d) with n >= 1, d >= 1 (a 1-D array of scalars is not a point set for this function); NaN/inf excluded",
+    "pointset of shape (n, d) with n >= 0, d >= 1 (a 1-D array of scalars is not a point set for this function; the empty set is "
+    "covered as an array of shape (0, d) - an empty Python list carries no arity and raises in the translation unless ref = 0: "
+    "observed, not counted); NaN/inf excluded; the reference is an array / list / tuple (a pandas Series is not accepted by the "
+    "in-place translation: observed, not counted)",
+    "recorder streams: the history of jobs is well formed (all successful jobs have the same number >= 2 of objectives)",
 ]
 RULE = ("lattice: sets of <=k distinct points on {0..4}^m, ref=(4..4) (translated for 2 cases in 4): quick = every set of <=3 points for m<=3, "
         "every 1-point set and 3000 seeded 2-/3-point sets for m=4; thorough = every set of <=4 points for m<=2, <=3 points for m=3, <=2 points "
         "for m=4, seeded samples of the 4-point sets (m=3) and the 3-/4-point sets (m=4). highdim_ties: 5-7 objectives on small integer ranges "
         "(tied coordinates, shared projections, boundary points). big_integers: integer-typed arrays / lists of Python ints with extents up to 2^33 "
         "per objective (exact volume beyond 2^63). near_ties: pairs of points differing by 1 ulp .. 1e-5 relative in the objective where one wins. "
-        "dyadic/floats/input_forms/recorder: generated from the seed. "
+        "sequence: 2-6 further calls on the SAME array objects edited in place by the caller between the calls, interleaved with calls of another arity. "
+        "input_forms: 18 representations (views, orders, dtypes, containers, empty (0,d) array), references with some zero components. "
+        "recorder: histories through ObjectiveRecorder / SearchEarlyStopping / LoggerCallback, objective given as tuple / list / array / numpy scalars, "
+        "pickle or deepcopy of the callback in the middle. dyadic/floats: generated from the seed. "
         "non-trivial = at least 2 points and 2 objectives")
 
-F_ND, F_SLICE, F_FAST, F_SPEC, F_CELLS, F_OKEXACT, F_OKCLOSE, F_OKLE, F_OKEQ, F_OKCASE = range(1201, 1211)
+F_ND, F_SLICE, F_FAST, F_SPEC, F_CELLS, F_OKEXACT, F_OKCLOSE, F_OKLE, F_OKEQ, F_OKCASE, F_RECOUT, F_OKREC, F_OKRECCLOSE = range(1201, 1214)
 
 
 # ---------------------------------------------------------------- exact transfer
@@ -138,6 +146,41 @@ def run_impl(pts, ref, form="array"):
         y0, r0 = snapshot(Y), snapshot(r)
         h = hypervolume(Y, r)
         return h, (snapshot(Y) != y0 or snapshot(r) != r0 or snapshot(big) != big0)
+    elif form == "float32":
+        Y, r = np.array(pts, dtype=np.float32), np.array(ref, dtype=np.float32)
+    elif form == "ref_int_array":  # float points, integer-typed reference (generator: integral ref)
+        Y, r = np.array(pts, dtype=float), np.array(ref, dtype=np.int64)
+    elif form == "ref_np_scalars":
+        Y, r = np.array(pts, dtype=float), [np.float64(v) for v in ref]
+    elif form == "neg_stride":  # reversed view: negative row stride
+        base = np.array(pts[::-1], dtype=float)
+        b0 = snapshot(base)
+        Y, r = base[::-1], np.array(ref, dtype=float)
+        h = hypervolume(Y, r)
+        return h, (snapshot(base) != b0 or snapshot(r) != snapshot(np.array(ref, dtype=float)))
+    elif form == "transposed":  # view of a (d, n) array
+        base = np.ascontiguousarray(np.array(pts, dtype=float).T)
+        b0 = snapshot(base)
+        Y, r = base.T, np.array(ref, dtype=float)
+        h = hypervolume(Y, r)
+        return h, (snapshot(base) != b0)
+    elif form in ("list_of_tuples", "tuple_of_tuples"):
+        Y = [tuple(float(v) for v in p) for p in pts]
+        if form == "tuple_of_tuples":
+            Y = tuple(Y)
+        r = tuple(float(v) for v in ref)
+        y0 = list(Y)
+        h = hypervolume(Y, r)
+        return h, (list(Y) != y0 or r != tuple(float(v) for v in ref))
+    elif form == "pandas_frame":
+        import pandas as pd
+
+        Y, r = pd.DataFrame(np.array(pts, dtype=float).reshape(len(pts), len(ref))), [float(v) for v in ref]
+        y0 = Y.copy(deep=True)
+        h = hypervolume(Y, r)
+        return h, (not Y.equals(y0) or r != [float(v) for v in ref])
+    elif form == "empty_array":  # no point at all, shape (0, d)
+        Y, r = np.zeros((0, len(ref))), np.array(ref, dtype=float)
     elif form == "int_array_int_ref":
         Y, r = np.array(pts, dtype=np.int64), np.array(ref, dtype=np.int64)
     elif form == "int_array_float_ref":
@@ -198,7 +241,7 @@ def check_set(case):
                     detail="%s: %s" % (type(e).__name__, str(e)[:300]))
     if mutated:
         return dict(res, ok=False, clause="input_mutated", detail="the caller's array / reference changed during the call")
-    q = as_ratio(h)
+    q = as_ratio(h) if np.ndim(h) == 0 else None
     if q is None:
         return dict(res, ok=False, clause="not_a_finite_number", detail=repr(h))
     tol = case.get("tol")
@@ -263,6 +306,50 @@ def check_set(case):
     return res
 
 
+def check_sequence(case):
+    from deephyper.skopt.moo import hypervolume
+
+    m = model()
+    A = np.array(case["pts"], dtype=float)
+    r = np.array(case["ref"], dtype=float)
+    d = len(case["ref"])
+    res = dict(ok=True, kind="oracle", clause="", sig=dict(objectives=objclass(d)), nontrivial=True,
+               desc=["m=%d" % d, "steps=%d" % len(case["steps"])] + sorted(set("op=" + st[0] for st in case["steps"])))
+
+    def judge(Y, rr, what, step):
+        y0, r0 = snapshot(Y), snapshot(rr)
+        h = hypervolume(Y, rr)
+        if snapshot(Y) != y0 or snapshot(rr) != r0:
+            return dict(res, ok=False, clause="input_mutated", detail=dict(step=step, call=what))
+        q = as_ratio(h) if np.ndim(h) == 0 else None
+        Pi, ri = [[int(v) for v in p] for p in Y.tolist()], [int(v) for v in rr.tolist()]
+        guard(m, ri, Pi)
+        if q is None or not m.call(F_OKEXACT, [1, ri, Pi, q[0], q[1]]):
+            return dict(res, ok=False, clause="sequence_exact", detail=dict(step=step, call=what, impl=repr(h), model=m.call(F_ND, [ri, Pi]),
+                                                                          pts=Y.tolist(), ref=rr.tolist()))
+        return None
+
+    bad = judge(A, r, "first", -1)
+    if bad:
+        return bad
+    for k, st in enumerate(case["steps"]):
+        if st[0] == "row":
+            A[st[1], :] = r - np.array(st[2], dtype=float)
+        elif st[0] == "ref":
+            r[st[1]] += st[2]
+        elif st[0] == "shift":
+            A += st[1]
+            r += st[1]
+        elif st[0] == "other":
+            bad = judge(np.array(st[1], dtype=float), np.array(st[2], dtype=float), "other", k)
+            if bad:
+                return bad
+        bad = judge(A, r, st[0], k)
+        if bad:
+            return bad
+    return res
+
+
 def scale_with(s, pts):
     out = []
     for p in pts:
@@ -276,40 +363,84 @@ def scale_with(s, pts):
     return out
 
 
-def check_recorder(case):
-    """ObjectiveRecorder (evaluator/callback.py): maximisation objectives, reference = componentwise worst point."""
-    from deephyper.evaluator.callback import ObjectiveRecorder
+def _as_objective(o, form):
+    if form == "list":
+        return list(o)
+    if form == "array":
+        return np.array(o)
+    if form == "np_scalars":
+        return tuple(np.float64(v) for v in o)
+    return tuple(o)
 
-    objs = case["objs"]  # list of tuples (lists) or "F" strings
-    rec = ObjectiveRecorder()
+
+def check_recorder(case):
+    """ObjectiveRecorder (evaluator/callback.py) along a history of jobs, directly or through SearchEarlyStopping /
+    LoggerCallback (their _best_objective).  The value after every job is judged by the extracted ok_rec_exact on the
+    history so far: the recorder model (negation, worst point as reference, failures skipped) is Coq's, not Python's."""
+    import contextlib
+    import copy
+    import io
+    import pickle
+
+    from deephyper.evaluator.callback import LoggerCallback, ObjectiveRecorder, SearchEarlyStopping
+
+    objs = case["objs"]  # list of objective vectors (lists) or "F" strings
+    via, oform, clone_at = case.get("via", "recorder"), case.get("oform", "tuple"), case.get("clone_at")
     m = model()
-    seen = []
     d = len(next(o for o in objs if not isinstance(o, str)))
-    res = dict(ok=True, kind="oracle", clause="", sig=dict(objectives=objclass(d)), nontrivial=(len(objs) >= 2), desc=["len=%d" % len(objs), "m=%d" % d,
-               "fail=%d" % sum(isinstance(o, str) for o in objs)])
-    for step, o in enumerate(objs):
-        job = types.SimpleNamespace(objective=o if isinstance(o, str) else tuple(o))
-        out = rec(job)
+    res = dict(ok=True, kind="oracle", clause="", sig=dict(objectives=objclass(d), via=via), nontrivial=(len(objs) >= 2),
+               desc=["len=%d" % len(objs), "m=%d" % d, "fail=%d" % sum(isinstance(o, str) for o in objs), "via=" + via, "oform=" + oform]
+               + (["clone=" + clone_at[1]] if clone_at else []))
+    s = 1
+    for o in objs:
         if not isinstance(o, str):
-            seen.append([-v for v in o])
-        if not seen:
-            if out != -float("inf"):
+            for v in o:
+                s = max(s, frac(v).denominator)
+    events = [[0] if isinstance(o, str) else [1, [int(frac(v) * s) for v in o]] for o in objs]
+    if via == "recorder":
+        obj = ObjectiveRecorder()
+        rec = obj
+    elif via == "early_stopping":
+        obj = SearchEarlyStopping(patience=10 ** 6, verbose=0)
+        rec = obj._objective_func
+    else:
+        obj = LoggerCallback()
+        rec = obj._objective_func
+    handed = []
+    for step, o in enumerate(objs):
+        if clone_at and clone_at[0] == step:  # the callback object survives a pickle round trip / a deep copy
+            obj = pickle.loads(pickle.dumps(obj)) if clone_at[1] == "pickle" else copy.deepcopy(obj)
+            rec = obj if via == "recorder" else obj._objective_func
+        given = o if isinstance(o, str) else _as_objective(o, oform)
+        handed.append((given, copy.deepcopy(given)))
+        job = types.SimpleNamespace(objective=given)
+        if via == "recorder":
+            out = obj(job)
+        else:
+            with contextlib.redirect_stdout(io.StringIO()):
+                obj.on_done(job)
+            out = obj._best_objective
+        expect = m.call(F_RECOUT, [d, events[: step + 1]])
+        if not expect:  # nothing recorded yet
+            if via == "recorder" and out != -float("inf"):
                 return dict(res, ok=False, clause="recorder_no_objective", detail=repr(out))
             continue
-        ref = [max(p[k] for p in seen) for k in range(d)]
-        s, Pi, ri = scale_case(seen, ref)
-        guard(m, ri, Pi)
-        q = as_ratio(out)
-        if case.get("tol") == "auto" and not (s == 1 and m.call(F_ND, [ri, Pi]) < 2 ** 53):  # large integers: see check_set
-            good = q is not None and m.call(F_OKCLOSE, [s, ri, Pi, q[0], q[1], 1, 10 ** 9])
+        q = as_ratio(out) if np.ndim(out) == 0 else None
+        if case.get("tol") == "auto" and not (s == 1 and expect[0] < 2 ** 53):  # large integers: see check_set
+            good = q is not None and m.call(F_OKRECCLOSE, [s, d, events[: step + 1], q[0], q[1], 1, 10 ** 9])
         else:
-            good = q is not None and m.call(F_OKEXACT, [s, ri, Pi, q[0], q[1]])
+            good = q is not None and m.call(F_OKREC, [s, d, events[: step + 1], q[0], q[1]])
         if not good:
-            mv = Fraction(m.call(F_ND, [ri, Pi]), s ** d)
-            return dict(res, ok=False, clause="recorder_exact", detail=dict(step=step, impl=repr(out), model=str(mv)))
-        kept = [list(x) for x in rec._objectives]
-        if kept != [[v for v in x] for x in objs[: step + 1] if not isinstance(x, str)]:
-            return dict(res, ok=False, clause="recorder_objectives_mutated", detail=dict(step=step, kept=kept))
+            return dict(res, ok=False, clause="recorder_exact", detail=dict(step=step, impl=repr(out), model=str(Fraction(expect[0], s ** d))))
+        # what was handed over is neither modified nor replaced in the record
+        for given, before in handed:
+            same = (given == before) if not isinstance(given, np.ndarray) else (snapshot(given) == snapshot(before))
+            if not same:
+                return dict(res, ok=False, clause="recorder_objectives_mutated", detail=dict(step=step))
+        kept = [[frac(v) for v in np.asarray(x).tolist()] for x in rec._objectives]
+        want = [[frac(v) for v in x] for x in objs[: step + 1] if not isinstance(x, str)]
+        if kept != want:
+            return dict(res, ok=False, clause="recorder_objectives_mutated", detail=dict(step=step, kept=str(kept)))
     return res
 
 
@@ -600,7 +731,9 @@ def gen_near_ties(count):
     return gen
 
 
-FORMS = ["ref_list", "ref_tuple", "fortran", "readonly", "view", "int_array_int_ref", "int_array_float_ref", "list"]
+FORMS = ["ref_list", "ref_tuple", "fortran", "readonly", "view", "int_array_int_ref", "int_array_float_ref", "list",
+         "float32", "ref_int_array", "ref_np_scalars", "neg_stride", "transposed", "list_of_tuples", "tuple_of_tuples",
+         "pandas_frame", "empty_array", "array"]
 
 
 def gen_forms(count):
@@ -608,13 +741,61 @@ def gen_forms(count):
         for i in range(count):
             form = FORMS[i % len(FORMS)]
             n, m = rng.randint(1, 6), rng.randint(1, 4)
+            if form == "empty_array":
+                yield dict(pts=[], ref=[float(rng.randint(-3, 3)) for _ in range(m)], form=form)
+                continue
             pts = [[float(rng.randint(-4, 4)) for _ in range(m)] for _ in range(n)]
             top = [max(p[k] for p in pts) for k in range(m)]
             if form == "int_array_float_ref" and i % 2:
                 ref = [t + 0.5 for t in top]
             else:
                 ref = [t + float(rng.randint(0, 2)) for t in top]
-            yield dict(pts=pts, ref=ref, form=form)
+            if (i // len(FORMS)) % 3 == 1 and form != "int_array_float_ref":
+                # reference with SOME zero components (the code tests `any(ref)` before translating)
+                zero = [k for k in range(m) if rng.random() < 0.5] or [rng.randrange(m)]
+                for k in zero:
+                    for p in pts:
+                        p[k] -= ref[k]
+                    ref[k] = 0.0
+            case = dict(pts=pts, ref=ref, form=form)
+            if i % 2 == 0 and float(min(ref)).is_integer():  # metamorphic clauses in the same input form
+                lo = min(min(p) for p in pts)
+                perm = list(range(n)) + [rng.randrange(n)]
+                rng.shuffle(perm)
+                ex = [float(rng.randint(int(lo) - 1, int(r))) for r in ref]
+                b1 = [float(rng.randint(int(lo) - 1, int(r))) for r in ref]
+                k = rng.randrange(m)
+                b1[k] = ref[k]
+                case.update(extra=ex, perm=perm, bnd=[b1], aux_same_form=True)
+            yield case
+    return gen
+
+
+def gen_sequence(count):
+    """Several calls in one process on the SAME array objects, which the caller edits in place between the calls (a growing /
+    changing archive), interleaved with calls of another arity.  Small integers: every call is judged exactly."""
+    def gen(rng, tier):
+        for i in range(count):
+            d = rng.randint(1, 5)
+            n = rng.randint(1, 6)
+            R = rng.randint(2, 4)
+            pts = [[rng.randint(0, R) for _ in range(d)] for _ in range(n)]
+            ref = [R + rng.randint(0, 1) for _ in range(d)]
+            steps = []
+            for _ in range(rng.randint(2, 6) if tier != "search" else 2):
+                u = rng.random()
+                if u < 0.35:  # overwrite one row: the current reference minus these offsets
+                    steps.append(["row", rng.randrange(n), [rng.randint(0, R + 1) for _ in range(d)]])
+                elif u < 0.5:  # raise one component of the reference
+                    steps.append(["ref", rng.randrange(d), rng.randint(1, 3)])
+                elif u < 0.65:  # shift the whole archive and the reference (in place)
+                    steps.append(["shift", rng.randint(-5, 5)])
+                elif u < 0.8:  # a call on other data of another arity in between
+                    d2 = rng.randint(1, 5)
+                    steps.append(["other", [[rng.randint(0, R) for _ in range(d2)] for _ in range(rng.randint(1, 4))], [R] * d2])
+                else:  # the same call again
+                    steps.append(["again"])
+            yield dict(pts=pts, ref=ref, steps=steps)
     return gen
 
 
@@ -645,7 +826,12 @@ def gen_recorder(count):
                     objs.append([rng.randint(-16, 16) / 4 for _ in range(m)] if i % 3 else [rng.randint(-3, 3) for _ in range(m)])
             if all(isinstance(o, str) for o in objs):
                 objs.append([0.5] * m)
-            yield dict(objs=objs)
+            case = dict(objs=objs, via=("recorder", "recorder", "early_stopping", "logger")[i % 4], oform=("tuple", "list", "array", "np_scalars")[(i // 4) % 4])
+            if i % 5 == 0 and len(objs) > 1:
+                case["clone_at"] = [rng.randrange(1, len(objs)), rng.choice(["pickle", "deepcopy"])]
+            if case["via"] == "logger":  # the logger formats the objective of every job: keep to successful jobs
+                case["objs"] = [o for o in objs if not isinstance(o, str)]
+            yield case
     return gen
 
 
@@ -681,12 +867,29 @@ def shrink_set(case):
                     yield dict(case, pts=q)
 
 
+def shrink_seq(case):
+    st = case["steps"]
+    for i in range(len(st)):
+        yield dict(case, steps=st[:i] + st[i + 1:])
+    pts = case["pts"]
+    if len(pts) > 1:
+        for i in range(len(pts)):
+            if all(not (x[0] == "row" and x[1] >= len(pts) - 1) for x in st):
+                yield dict(case, pts=pts[:i] + pts[i + 1:])
+
+
 def shrink_rec(case):
     objs = case["objs"]
     for i in range(len(objs)):
         rest = objs[:i] + objs[i + 1:]
         if any(not isinstance(o, str) for o in rest):
-            yield dict(objs=rest)
+            c = dict(case, objs=rest)
+            c.pop("clone_at", None)
+            yield c
+    if case.get("clone_at"):
+        c = dict(case)
+        c.pop("clone_at")
+        yield c
 
 
 def streams(tier):
@@ -703,6 +906,7 @@ def streams(tier):
         Stream("floats", gen_floats(700 if th else 140, 60 if th else 30, 7), check_set, shrink_set, timeout=300),
         Stream("big_integers", gen_bigint(7000 if th else 1400), check_set, shrink_set, timeout=60),
         Stream("near_ties", gen_near_ties(20000 if th else 3000), check_set, shrink_set, timeout=60),
-        Stream("input_forms", gen_forms(800 if th else 160), check_set, shrink_set, timeout=30),
-        Stream("recorder", gen_recorder(1500 if th else 200), check_recorder, shrink_rec, timeout=60),
+        Stream("sequence", gen_sequence(12000 if th else 2000), check_sequence, shrink_seq, timeout=60),
+        Stream("input_forms", gen_forms(3600 if th else 720), check_set, shrink_set, timeout=30),
+        Stream("recorder", gen_recorder(3000 if th else 480), check_recorder, shrink_rec, timeout=60),
     ]
